@@ -41,7 +41,7 @@ def word_to_model(w, t):
 
 
 def tree_to_model(v, t):
-    if t[0] == "bytes":
+    if t[0] in ("bytes", "string"):
         return val_coq(bytes(v))
     if is_prim(t):
         if t[0] == "bool":
@@ -55,6 +55,8 @@ def tree_to_model(v, t):
 def tree_to_abi(v, t):
     if t[0] == "bytes":
         return bytes(v)
+    if t[0] == "string":
+        return bytes(v).decode("latin-1")
     if is_prim(t):
         if t[0] == "addr":
             return "0x" + int(v).to_bytes(20, "big").hex()
@@ -65,7 +67,7 @@ def tree_to_abi(v, t):
 
 
 def is_dyn(t):
-    if t[0] in ("darr", "bytes"):
+    if t[0] in ("darr", "bytes", "string"):
         return True
     if t[0] == "sarr":
         return is_dyn(t[1])
@@ -96,7 +98,7 @@ def static_words(t):
 
 
 def enc_val(v, t):
-    if t[0] == "bytes":
+    if t[0] in ("bytes", "string"):
         v = bytes(v)
         return len(v).to_bytes(32, "big") + v + b"\0" * (ceil32(len(v)) - len(v))
     if is_prim(t):
@@ -234,7 +236,7 @@ def expected_logs(prog, events):
 def n_slots(t):
     if is_prim(t) or t[0] == "map":
         return 1
-    if t[0] == "bytes":
+    if t[0] in ("bytes", "string"):
         return 1 + ceil32(t[1]) // 32
     if t[0] == "sarr":
         return t[2] * n_slots(t[1])
@@ -263,7 +265,7 @@ def flat_slots(v, t):
     """expected slot words (None = not determined by the source semantics / checked elsewhere)"""
     if t[0] == "map":
         return [None]
-    if t[0] == "bytes":
+    if t[0] in ("bytes", "string"):
         v = bytes(v)
         out = [len(v)]
         for k in range(0, len(v), 32):
